@@ -20,6 +20,9 @@ type (
 		totalQPSLimiterLock   sync.RWMutex
 		handlerQPSLimiter     map[string]*qpsLimiter
 		handlerQPSLimiterLock sync.RWMutex
+		// sessions that currently hold a connection slot
+		admitted     map[interface{}]struct{}
+		admittedLock sync.Mutex
 	}
 	// LimitConfig overload limitation condition
 	LimitConfig struct {
@@ -47,6 +50,7 @@ var (
 func New(initLimitConfig LimitConfig) *Overloader {
 	o := &Overloader{
 		handlerQPSLimiter: make(map[string]*qpsLimiter),
+		admitted:          make(map[interface{}]struct{}),
 	}
 	o.Update(initLimitConfig)
 	return o
@@ -60,16 +64,21 @@ func (o *Overloader) Name() string {
 // PostDial checks connection overload.
 // If overload, print error log and close the connection.
 func (o *Overloader) PostDial(sess erpc.PreSession, isRedial bool) *erpc.Status {
-	if isRedial {
+	if isRedial && o.holdsSlot(sess) {
 		return nil
 	}
+	// (a session that had ended and is redialled by a later call has
+	// given its slot back: it is admitted like a new one)
 	return o.PostAccept(sess)
 }
 
 // PostAccept checks connection overload.
 // If overload, print error log and close the connection.
-func (o *Overloader) PostAccept(_ erpc.PreSession) *erpc.Status {
+func (o *Overloader) PostAccept(sess erpc.PreSession) *erpc.Status {
 	if o.takeConn() {
+		o.admittedLock.Lock()
+		o.admitted[sess] = struct{}{}
+		o.admittedLock.Unlock()
 		return nil
 	}
 	msg := fmt.Sprintf("connection overload, limit=%d, now=%d",
@@ -79,9 +88,24 @@ func (o *Overloader) PostAccept(_ erpc.PreSession) *erpc.Status {
 }
 
 // PostDisconnect releases connection count.
-func (o *Overloader) PostDisconnect(_ erpc.BaseSession) *erpc.Status {
-	o.releaseConn()
+// Only a session that was admitted holds a slot; a rejected connection
+// is disconnected too, and must not give back a slot it never took.
+func (o *Overloader) PostDisconnect(sess erpc.BaseSession) *erpc.Status {
+	o.admittedLock.Lock()
+	_, ok := o.admitted[sess]
+	delete(o.admitted, sess)
+	o.admittedLock.Unlock()
+	if ok {
+		o.releaseConn()
+	}
 	return nil
+}
+
+func (o *Overloader) holdsSlot(sess interface{}) bool {
+	o.admittedLock.Lock()
+	_, ok := o.admitted[sess]
+	o.admittedLock.Unlock()
+	return ok
 }
 
 // PostReadCallHeader checks PULL QPS overload.
